@@ -48,6 +48,8 @@ def run(ctx):
     lib_ref.borrowed(ctx, P)
     lib_kind2.alloc_err(ctx, P, lambda k, f: True, tus=["module"])
     lib_kind2.err_var(ctx, P, lambda k, f: True, tus=["module"])
+    lib_kind2.memset_count(ctx, P, lambda k, f: True, tus=["module"])
+    lib_kind2.keep_rows_atomic(ctx, P)
     lib_kind3.error_codes(ctx, P)
     lib_kind.dict_atomic(ctx, P)
     lib_stats.early_exits(ctx, P)
@@ -62,3 +64,6 @@ def run(ctx):
     # Python: a public method that indexes a numpy array with the caller's id must test its lower bound (numpy wraps negatives)
     py = ctx.python()
     lib_kind3.py_slips(ctx, py, mods=("trees", "tables", "genotypes"), only=scopes.py_scope("C09"))
+    from . import lib_py
+    lib_py.facade_guard(ctx, py, "tables", "BaseTable.__getitem__", "index", "ll_table.get_row", upper="len(self)")
+    lib_schema.update_row(ctx, P, load_schemas(P))
